@@ -51,6 +51,23 @@ def selection(c, rng, mode, kind):
         gap = rng.randint(2, n - 2 - a)
         idx = [a, a + 1] + list(range(a + 1 + gap, min(n, a + 1 + gap + rng.randint(1, 3))))
         return ({"ci_avg_time_isel": idx} if over_time else {"ci_avg_x_isel": idx}), idx, "isel-gap"
+    if kind == "isel-spell":
+        # the same elements in another legal spelling of positions: counted from the end, as ndarray, as range; half of the blocks
+        # reach the last element ("the last n")
+        if rng.random() < 0.5:
+            idx = list(range(i0, n))
+        how = rng.choice(["neg-list", "neg-array", "neg-range", "array", "range"])
+        if how == "neg-list":
+            sp = [i - n for i in idx]
+        elif how == "neg-array":
+            sp = np.array([i - n for i in idx])
+        elif how == "neg-range":
+            sp = range(idx[0] - n, idx[-1] - n + 1)
+        elif how == "array":
+            sp = np.array(idx)
+        else:
+            sp = range(idx[0], idx[-1] + 1)
+        return ({"ci_avg_time_isel": sp} if over_time else {"ci_avg_x_isel": sp}), idx, "isel-spell:" + how
     if over_time:
         t = c.ds.time.values
         if kind == "sel":
@@ -65,7 +82,8 @@ def run_one(ctx, c, out, mode, kind, ci, size=60):
     rng = ctx.rng
     selkw, idx, kind = selection(c, rng, mode, kind)
     over_time = mode in ("avg1", "avg2")
-    desc = dict(calib.case_desc(c), mode=mode, selection=kind, idx=(idx if kind == "isel-gap" else [idx[0], idx[-1]]), conf_ints=ci)
+    desc = dict(calib.case_desc(c), mode=mode, selection=kind, idx=(idx if kind == "isel-gap" else [idx[0], idx[-1]]), conf_ints=ci,
+                spelled=(repr(list(selkw.values())[0])[:80] if selkw else None))
     kw = dict(mc_sample_size=size, conf_ints=[2.5, 97.5] if ci else None, mc_remove_set_flag=False, **{MODES[mode]: True}, **selkw)
     seed = rng.randrange(10**6)
     try:
@@ -86,6 +104,10 @@ def run_one(ctx, c, out, mode, kind, ci, size=60):
             ctx.mismatch("Average.allOutputs dims", desc, [name, dims], [name, got])
         if "mc" in av[name].dims or (("time" if over_time else "x") in got):
             ctx.fail(f"{name} has dims {av[name].dims}: indexed by the Monte Carlo sample or by the averaged dimension", desc)
+        vals = np.asarray(av[name].values, dtype=float)
+        if vals.size == 0 or not np.all(np.isfinite(vals)):
+            ctx.fail(f"{name} is not finite everywhere ({int((~np.isfinite(vals)).sum())} of {vals.size} cells): it cannot be a mean / "
+                     f"variance / bound over the {len(idx)} selected elements", desc)
     # every averaged output that is returned, requested or not, must be free of the Monte Carlo sample dimension
     for name in av.data_vars:
         if "_avg" in str(name) and not str(name).endswith("_set") and "mc" in av[name].dims:
@@ -136,41 +158,48 @@ def run_one(ctx, c, out, mode, kind, ci, size=60):
                 vf, vb = np.asarray(av[f"tmpf_mc_{mode}_var"].values), np.asarray(av[f"tmpb_mc_{mode}_var"].values)
                 if np.nanmax(np.abs(got_var - 1 / (1 / vf + 1 / vb)) / got_var) > 1e-9:
                     ctx.fail(f"{var_name} is not 1/(1/var_f + 1/var_b) of the averaged channels", desc)
-    ctx.case(sig=[c.double, mode, kind, ci, c.nx, c.nt], nontrivial=kind != "none" and len(idx) >= 2, sample=desc)
-    ctx.count(f"{mode}:{kind}:{'ci' if ci else 'noci'}")
+    ctx.case(sig=[c.double, mode, kind.split(":")[0], ci, c.nx, c.nt], nontrivial=kind != "none" and len(idx) >= 2, sample=desc)
+    ctx.count(f"{mode}:{kind.split(':')[0]}:{'ci' if ci else 'noci'}")
+    if ":" in kind:
+        ctx.count("spelling " + kind.split(":")[1])
     return av, seed, idx
 
 
 def sel_isel_pair(ctx, c, out, mode):
-    """label selection and index selection of the same elements, same seeds -> identical results"""
+    """label selection and index selection of the same elements, same seeds -> identical results; the index selection also spelled
+    from the end of the axis ("the last n": [-n, …, -1]) and as an ndarray"""
     over_time = mode in ("avg1", "avg2")
     n = c.nt if over_time else c.nx
     if n < 3:
         return
-    i0, i1 = 1, n - 1 if n < 4 else n - 2
-    idx = list(range(i0, i1 + 1))
-    if over_time:
-        t = c.ds.time.values
-        a = {"ci_avg_time_sel": slice(t[i0], t[i1])}
-        b = {"ci_avg_time_isel": idx}
-    else:
-        a = {"ci_avg_x_sel": slice(float(c.x[i0]), float(c.x[i1]))}
-        b = {"ci_avg_x_isel": idx}
-    kw = dict(mc_sample_size=40, conf_ints=[10.0, 90.0], **{MODES[mode]: True})
-    desc = dict(calib.case_desc(c), mode=mode, sub="sel-vs-isel", idx=[i0, i1])
-    try:
-        r1 = avg_call(c, out, 4242, **kw, **a)
-        r2 = avg_call(c, out, 4242, **kw, **b)
-    except Exception as e:  # noqa: BLE001
-        ctx.fail(f"average_monte_carlo raised {type(e).__name__}: {e}", desc)
-        return
-    for k in r1.data_vars:
-        a1, a2 = np.asarray(r1[k].values), (np.asarray(r2[k].values) if k in r2 else None)
-        if a2 is None or a1.shape != a2.shape or not np.allclose(a1, a2, rtol=1e-10, atol=1e-14, equal_nan=True):
-            ctx.fail(f"selecting by label and by index of the same elements gives different `{k}`", desc)
-            break
-    ctx.case(sig=["sel-vs-isel", c.double, mode, c.nx, c.nt], nontrivial=True, sample=desc)
-    ctx.count("sel-vs-isel")
+    for (i0, i1), spell in (((1, n - 1 if n < 4 else n - 2), "list"), ((n - 2, n - 1), "neg-list"), ((max(0, n - 3), n - 1), "neg-array")):
+        idx = list(range(i0, i1 + 1))
+        sp = idx if spell == "list" else ([i - n for i in idx] if spell == "neg-list" else np.array([i - n for i in idx]))
+        if over_time:
+            t = c.ds.time.values
+            a = {"ci_avg_time_sel": slice(t[i0], t[i1])}
+            b = {"ci_avg_time_isel": sp}
+        else:
+            a = {"ci_avg_x_sel": slice(float(c.x[i0]), float(c.x[i1]))}
+            b = {"ci_avg_x_isel": sp}
+        kw = dict(mc_sample_size=40, conf_ints=[10.0, 90.0], **{MODES[mode]: True})
+        desc = dict(calib.case_desc(c), mode=mode, sub="sel-vs-isel", idx=[i0, i1], spelled=repr(sp)[:60])
+        try:
+            r1 = avg_call(c, out, 4242, **kw, **a)
+            r2 = avg_call(c, out, 4242, **kw, **b)
+        except Exception as e:  # noqa: BLE001
+            ctx.fail(f"average_monte_carlo raised {type(e).__name__}: {e}", desc)
+            return
+        for k in r1.data_vars:
+            a1, a2 = np.asarray(r1[k].values), (np.asarray(r2[k].values) if k in r2 else None)
+            if a2 is None or a1.shape != a2.shape or not np.allclose(a1, a2, rtol=1e-10, atol=1e-14, equal_nan=True):
+                ctx.fail(f"selecting by label and by index ({spell}) of the same elements gives different `{k}`", desc)
+                break
+            if "_avg" in str(k) and not str(k).endswith("_set") and not np.all(np.isfinite(np.asarray(a1, dtype=float))):
+                ctx.fail(f"`{k}` is not finite for a non-empty selection", desc)
+                break
+        ctx.case(sig=["sel-vs-isel", c.double, mode, c.nx, c.nt, spell], nontrivial=True, sample=desc)
+        ctx.count("sel-vs-isel " + spell)
 
 
 def run(ctx):
@@ -183,7 +212,7 @@ def run(ctx):
         if isinstance(out, tuple):
             continue
         for mode in MODES:
-            for kind in ("sel", "isel", "isel-gap", "none"):
+            for kind in ("sel", "isel", "isel-gap", "isel-spell", "none"):
                 for ci in (True, False):
                     run_one(ctx, c, out, mode, kind, ci)
             sel_isel_pair(ctx, c, out, mode)
